@@ -306,6 +306,53 @@ macro_rules! bfv_impl {
                         });
                         (r.map(|x| format!("ok {}", x)), o)
                     }
+                    "sv_get" | "sv_iter" | "sv_rev_iter" | "sv_eq" | "sv_unaligned" => {
+                        // the same contents through BitFieldVec<W, &[W]> over caller-supplied storage
+                        // starting at an odd / even word offset of a larger buffer
+                        let wsv: Vec<$W> = s.a.as_slice().to_vec();
+                        let (bw, len) = (s.a.bit_width(), s.a.len());
+                        let run = |k: usize| -> Option<String> {
+                            let mut buf: Vec<$W> = vec![<$W>::MAX; k];
+                            buf.extend_from_slice(&wsv);
+                            buf.push(<$W>::MAX / 3);
+                            let view: BitFieldVec<$W, &[$W]> =
+                                unsafe { BitFieldVec::from_raw_parts(&buf[k..k + wsv.len()], bw, len) };
+                            catch(|| match t[0] {
+                                "sv_get" => format!("ok {}", view.get(num(1))),
+                                "sv_unaligned" => format!("ok {}", view.get_unaligned(num(1))),
+                                "sv_iter" => format!("ok {}", fmt_list(view.iter())),
+                                "sv_rev_iter" => {
+                                    let mut it = (&view).into_rev_unchecked_iter();
+                                    let mut out = vec![];
+                                    for _ in 0..len {
+                                        out.push(unsafe { it.next_unchecked() });
+                                    }
+                                    format!("ok {}", fmt_list(out))
+                                }
+                                _ => format!("ok {}", b01(view == s.b)),
+                            })
+                        };
+                        let (r1, r2) = (run(1), run(2));
+                        if r1 != r2 {
+                            ctx.check_oracle("slice views at different word offsets agree", &format!("{:?} vs {:?}", r1, r2));
+                        }
+                        let o = match t[0] {
+                            "sv_get" => {
+                                let i = num(1);
+                                if i < s.oa.v.len() { format!("ok {}", s.oa.v[i]) } else { "panic".into() }
+                            }
+                            "sv_unaligned" => {
+                                let i = num(1);
+                                let adm = bw <= WBITS - 8 + 2 || bw == WBITS - 8 + 4 || bw == WBITS;
+                                let padded = (i * bw) / 8 + WBITS / 8 <= wsv.len() * (WBITS / 8);
+                                if i < s.oa.v.len() && adm && padded { format!("ok {}", s.oa.v[i]) } else { "panic".into() }
+                            }
+                            "sv_iter" => format!("ok {}", fmt_list(s.oa.v.iter())),
+                            "sv_rev_iter" => format!("ok {}", fmt_list(s.oa.v.iter().rev())),
+                            _ => format!("ok {}", b01(s.oa.bw == s.ob.bw && s.oa.v == s.ob.v)),
+                        };
+                        (r1, o)
+                    }
                     "eq" => (
                         catch(|| s.a == s.b).map(|x| format!("ok {}", b01(x))),
                         format!("ok {}", b01(s.oa.bw == s.ob.bw && s.oa.v == s.ob.v)),
@@ -735,6 +782,8 @@ fn gen_op(ctx: &mut Ctx, s: &AnyS, w: usize, atomic: bool) -> String {
             33 if atomic => format!("aget {}", gen_index(ctx, len)),
             34 if atomic => "areset".into(),
             35 => format!("get_unaligned {}", gen_index(ctx, len)),
+            38 => ctx.rng.pick(&["sv_iter", "sv_rev_iter", "sv_eq"]).to_string(),
+            39 => format!("{} {}", ctx.rng.pick(&["sv_get", "sv_unaligned"]), gen_index(ctx, len)),
             36 | 37 => {
                 let a = ctx.rng.below(5) as u128;
                 let c = ctx.rng.next_u64() as u128;
@@ -920,6 +969,11 @@ fn directed(ctx: &mut Ctx) {
                     "get 1".into(),
                     "get_unaligned 1".into(),
                     format!("get_unaligned {}", 2 * per),
+                    "sv_get 1".into(),
+                    "sv_unaligned 1".into(),
+                    "sv_iter".into(),
+                    "sv_rev_iter".into(),
+                    "sv_eq".into(),
                     "clone".into(),
                     "eq".into(),
                     "apply 3 7".into(),
